@@ -238,7 +238,14 @@ def F40():  # C25/C23 alias rule in an imported grammar whose target comes from 
     open(os.path.join(d, "c.tx"), "w").write("Y: 'y' name=ID;\n"); open(os.path.join(d, "b.tx"), "w").write("import c\nX: Y;\n"); open(os.path.join(d, "a.tx"), "w").write("import b\nModel: xs+=X;\n")
     try: mm = metamodel_from_file(os.path.join(d, "a.tx")); m = mm.model_from_str("y a y b"); return [x.name for x in m.xs] != ["a", "b"]
     except KeyError: return True
-ALL = [F40, F39, F38, F37, F36, F28, F1, F2, F3, F4, F5, F6, F7, F8, F9, F10, F11, F12, F13, F14, F15_16, F18, F19, F20, F21, F22, F23, F24, F26, F27]
+def F41():  # C29 a long chain of linked objects cannot be exported (RecursionError)
+    import io as _io
+    from textx.export import model_export_to_file
+    mm = metamodel_from_str("Model: items+=Item; Item: 'item' name=ID ('->' next=[Item])?;")
+    n = 1500; m = mm.model_from_str("\n".join("item i%d -> i%d" % (i, i + 1) for i in range(n)) + "\nitem i%d" % n)
+    try: model_export_to_file(_io.StringIO(), m); return False
+    except RecursionError: return True
+ALL = [F41, F40, F39, F38, F37, F36, F28, F1, F2, F3, F4, F5, F6, F7, F8, F9, F10, F11, F12, F13, F14, F15_16, F18, F19, F20, F21, F22, F23, F24, F26, F27]
 if __name__ == "__main__":
     sel = sys.argv[1:]
     for w in ALL:
